@@ -961,10 +961,41 @@ func (c *Ctx) ruleWrapKeepsHandle(rr *RuleRep) {
 		}
 		// every path from the entry to `at` takes the true edge of an identity test of the cause (however the outcome of the
 		// test travels to the branch: directly, through `||`, or through a flag an extracted predicate returned)
+		// cond being true means an identity test held: the test itself, or a short-circuit value all of whose ways of being
+		// true are such tests (`a || b`: the constant-true edge comes from a's true edge, the other edge is b)
+		var identityTrue func(v ssa.Value, depth int) bool
+		identityTrue = func(v ssa.Value, depth int) bool {
+			if depth > 4 {
+				return false
+			}
+			if identity(v) {
+				return true
+			}
+			phi, ok := v.(*ssa.Phi)
+			if !ok || len(phi.Edges) == 0 {
+				return false
+			}
+			for i, e := range phi.Edges {
+				if kb, isK := constBool(e); isK {
+					if !kb {
+						continue
+					}
+					pb := blockIf(phi.Block().Preds[i])
+					if pb == nil || !identityTrue(pb.Cond, depth+1) || phi.Block().Preds[i].Succs[0] != phi.Block() {
+						return false
+					}
+					continue
+				}
+				if !identityTrue(e, depth+1) {
+					return false
+				}
+			}
+			return true
+		}
 		guarded := func(at ssa.Instruction) bool {
 			_, reach := CanReach(wr, nil, func(in ssa.Instruction) bool { return in == at }, PathQ{BlockEdge: func(b *ssa.BasicBlock, k int) bool {
 				iff := blockIf(b)
-				return iff != nil && k == 0 && identity(iff.Cond)
+				return iff != nil && k == 0 && identityTrue(iff.Cond, 0)
 			}})
 			return !reach
 		}
